@@ -4,6 +4,8 @@ import (
 	"fmt"
 	"go/token"
 	"go/types"
+	"os"
+	"runtime/debug"
 )
 
 // ---------------------------------------------------------------- navigation
@@ -89,6 +91,11 @@ func (ex *Exec) loadObj(o *Object, path []PathEl) Value {
 		if len(path) != 1 || path[0].Idx == nil {
 			panic(ex.unsupported("load of whole symbolic byte array"))
 		}
+		if os.Getenv("VERIF_DEBUG") == "2" && o.Arr.kind == aCopy && !ex.dbgOnce {
+			ex.dbgOnce = true
+			debug.PrintStack()
+			fmt.Println("select on", o.Site, "depth", o.Arr.depth)
+		}
 		return ex.arrSelect(o.Arr, path[0].Idx)
 	}
 	panic(fmt.Sprintf("loadObj kind %d", o.Kind))
@@ -112,11 +119,7 @@ func (ex *Exec) storeObj(o *Object, path []PathEl, v Value, g *Term) {
 		if len(path) != 1 || path[0].Idx == nil {
 			panic(ex.unsupported("store of whole symbolic byte array"))
 		}
-		val := v.(*Term)
-		if !g.IsTrue() {
-			val = ex.tb.Ite(g, val, ex.arrSelect(o.Arr, path[0].Idx))
-		}
-		o.Arr = ex.arrStore(o.Arr, path[0].Idx, val)
+		o.Arr = ex.arrStoreG(o.Arr, path[0].Idx, v.(*Term), g)
 	default:
 		panic(fmt.Sprintf("storeObj kind %d", o.Kind))
 	}
@@ -353,6 +356,11 @@ func (ex *Exec) copySlice(st *State, dst, src *SliceV, pos token.Pos) (*Term, bo
 				}
 				g := tb.And(st.G, d.G, s.G)
 				if g.IsFalse() {
+					continue
+				}
+				if d.Obj == s.Obj && ex.sched != nil && !g.IsTrue() && !ex.feasible(g) {
+					// a copy of an array onto itself that cannot happen (stale alternative of a
+					// goroutine-allocated array): skipping it avoids self-referential layers
 					continue
 				}
 				nn := n
